@@ -27,11 +27,21 @@ def crates_root():
     (VERIF_REPO: seeded-change evaluation, background runs) a private copy under BUILD is used so that concurrent runs do not disturb each other"""
     if REPO == '/repo': return VERIF
     root = os.path.join(BUILD, 'crates')
-    if not os.path.isdir(os.path.join(root, 'replay')):
+    global _crates_synced
+    if not _crates_synced:      # once per process: mirror the sources (build output of the copy is kept)
+        _crates_synced = True
         os.makedirs(root, exist_ok=True)
         for c in ('replay', 'kani'):
-            shutil.copytree(os.path.join(VERIF, c), os.path.join(root, c), ignore=shutil.ignore_patterns('target', '.cargo-lock'))
+            shutil.copytree(os.path.join(VERIF, c), os.path.join(root, c), ignore=shutil.ignore_patterns('target', '.cargo-lock'), dirs_exist_ok=True)
     return root
+
+
+_crates_synced = False
+
+
+def evidence_dir():
+    """/verif/evidence describes runs against /repo only; runs against another checkout (dev: seeded changes, background runs) keep theirs with their build"""
+    return os.path.join(VERIF, 'evidence') if REPO == '/repo' else os.path.join(BUILD, 'evidence')
 
 
 class CheckInconclusive(Exception):
@@ -266,8 +276,8 @@ def finish(ctx, level, explanation, extra_cov=None, rule=None):
     if extra_cov: cov.update(extra_cov)
     ev = {'property_id': ctx.pid, 'tier': ctx.tier, 'seed': ctx.seed, 'level': level, 'coverage': cov,
           'assumptions': ctx.assumptions, 'wall_s': round(wall, 2), 'violations': len(ctx.violations)}
-    os.makedirs(os.path.join(VERIF, 'evidence'), exist_ok=True)
-    with open(os.path.join(VERIF, 'evidence', ctx.pid + '.json'), 'w') as f:
+    os.makedirs(evidence_dir(), exist_ok=True)
+    with open(os.path.join(evidence_dir(), ctx.pid + '.json'), 'w') as f:
         json.dump(ev, f, indent=1, default=str)
     for k in ctx.known:
         print('KNOWN-FINDING: property=%s %s' % (ctx.pid, k['text']))
@@ -285,6 +295,6 @@ def write_inconclusive(ctx, why):
     ev = {'property_id': ctx.pid, 'tier': ctx.tier, 'seed': ctx.seed, 'level': 'other',
           'coverage': {'explanation': 'INCONCLUSIVE - no verdict: ' + why[:3000], 'evaluations': 1, 'distinct_nontrivial': 0},
           'assumptions': [], 'wall_s': round(wall, 2), 'violations': 0}
-    os.makedirs(os.path.join(VERIF, 'evidence'), exist_ok=True)
-    with open(os.path.join(VERIF, 'evidence', ctx.pid + '.json'), 'w') as f: json.dump(ev, f, indent=1)
+    os.makedirs(evidence_dir(), exist_ok=True)
+    with open(os.path.join(evidence_dir(), ctx.pid + '.json'), 'w') as f: json.dump(ev, f, indent=1)
     print('INCONCLUSIVE property=%s: %s' % (ctx.pid, why[:3000]))
